@@ -2226,3 +2226,7 @@ M("c16-write-error-dropped", "C16", "m3/thrift/v2/ttypes.go",
   "	if err := oprot.WriteString(string(p.Value)); err != nil {\n		return thrift.PrependError(fmt.Sprintf(\"%T.value (2) field write error: \", p), err)\n	}", "	_ = oprot.WriteString(string(p.Value))", expect="O1")
 M("c16-args-read-error-swallowed", "C16", "m3/thrift/v2/m3.go",
   "func (p *M3EmitMetricBatchV2Args) Read(iprot thrift.TProtocol) error {\n	if _, err := iprot.ReadStructBegin(); err != nil {\n		return thrift.PrependError(", "func (p *M3EmitMetricBatchV2Args) Read(iprot thrift.TProtocol) error {\n	if _, err := iprot.ReadStructBegin(); err != nil {\n		return nil\n		return thrift.PrependError(", expect="O1 error-discipline")
+M("c16-message-type-shift", "C16", "thirdparty/github.com/apache/thrift/lib/go/thrift/compact_protocol.go",
+  "((byte(typeId) << COMPACT_TYPE_SHIFT_AMOUNT) & COMPACT_TYPE_MASK)", "((byte(typeId) >> COMPACT_TYPE_SHIFT_AMOUNT) & COMPACT_TYPE_MASK)", expect="O6 compact-headers")
+M("c16-message-version-or", "C16", "thirdparty/github.com/apache/thrift/lib/go/thrift/compact_protocol.go",
+  "(COMPACT_VERSION & COMPACT_VERSION_MASK) | ((byte(typeId)", "(COMPACT_VERSION | COMPACT_VERSION_MASK) | ((byte(typeId)", expect="O6 compact-headers")
